@@ -55,7 +55,9 @@ def draw_env(rng, tool, force_stdin=False):
                 names=rng.choice((0, 0, 0, 1, 2, 3, 4)),
                 spell=rng.getrandbits(30) if rng.random() < 0.3 else 0,
                 late_opts=rng.random() < 0.15,
-                inplace=(tool == "veftopng" and rng.random() < 0.2))
+                inplace=(tool == "veftopng" and rng.random() < 0.2),
+                opt=rng.choice((1, 2)) if rng.random() < 0.08 else 0,
+                envseed=rng.getrandbits(30) if rng.random() < 0.2 else 0)
         if e.inplace:
             e.in_kind, e.out_kind = "path", "path"
         if env_valid(tool, e):
@@ -372,7 +374,33 @@ def _minimal_cases():
     out.append(pick("mge", 30000, 40000, lambda c: c.params["raw"]))
     out.append(formats.gen_hrs(r, with_opts=False))
     out.append(formats.gen_max(r, with_opts=False))
+    # one row wider than a 64 KiB block
+    out.append(plain_case("hrs", 131074, 1, 0))
+    out.append(plain_case("max", 8 * 65540, 1, 0))
     return out
+
+
+def c19_tail_chunk(arg):
+    """Enumeration for the quick tier: every sweep file cut 1, 2, 3, 16, 256 and 4000 bytes
+    before its end (a download that stopped just short), by file and by pipe."""
+    ci = arg
+    warm()
+    case = minimal_cases()[ci]
+    recs = []
+    n = len(case.data)
+    for back in (1, 2, 3, 16, 256, 4000):
+        k = n - back
+        if k < 0:
+            continue
+        plan = [{"kind": "truncate", "at": k}]
+        for env in (Env(), Env("dash", "dash", "small", "small", k, k)):
+            if not env_valid(case.tool, env):
+                continue
+            data, dmg, eff, run, verdict, cls = c19_execute(case, plan, env)
+            recs.append({"ci": ci, "k": k, "tool": case.tool, "verdict": verdict, "cls": cls,
+                         "site": run.signature_site(), "env": env.key(), "steps": run.steps,
+                         "digest": run.digest()})
+    return recs
 
 
 def c19_prefix_chunk(arg):
@@ -560,12 +588,15 @@ def real_cli(tool, opts, data, env, tmpdir):
     elif env.out_kind == "dash":
         pos.append("-")
     argv = pos + argv if env.late_opts and pos else argv + pos
+    from .decsim import env_vars
     envv = dict(os.environ, PYTHONPATH=REPO, PYTHONDONTWRITEBYTECODE="1")
     envv.pop("PYTHONUNBUFFERED", None)
     if env.unbuf:
         envv["PYTHONUNBUFFERED"] = "1"
+    envv.update(env_vars(env.envseed))
+    pyopt = ["-" + "O" * env.opt] if env.opt else []
     try:
-        p = subprocess.run([PYTHON, "-m", "coco." + tool] + argv, input=stdin if stdin is not None else b"",
+        p = subprocess.run([PYTHON] + pyopt + ["-m", "coco." + tool] + argv, input=stdin if stdin is not None else b"",
                            capture_output=True, env=envv, cwd=os.path.join(tmpdir, "cwd"), timeout=120)
     except subprocess.TimeoutExpired:
         for q in (inp, outp):
